@@ -8,7 +8,7 @@ From Coq Require Import Reals ZArith Lra Lia Bool List PrimFloat.
 From Flocq Require Import Zaux Raux Generic_fmt Round_NE.
 From PR Require Import Model.Grid Model.CropBase Model.Crop Proofs.Grid_real Proofs.C11_crop.
 From PR Require Import Base.ZX Base.Num Base.RNum Base.F64 Base.Slice Model.Partition Model.Blockwise Model.Gradient
-     Gen.GenC09 Proofs.C09_newton Proofs.C09_scan Proofs.C09_kernels Proofs.C09_blocks Proofs.C09_main Proofs.C09_gen Proofs.C09_c11.
+     Gen.GenC09 Proofs.C09_newton Proofs.C09_scan Proofs.C09_kernels Proofs.C09_blocks Proofs.C09_main Proofs.C09_gen Proofs.C09_c11 Proofs.C09_legacy.
 Import ListNotations.
 Open Scope R_scope.
 
@@ -312,3 +312,43 @@ Example C09_nn_tie_depends_on_crop_offset :
   block_nn F64 (shift2 D 0 0) 5 5 (PrimFloat.sub 2.5 (Z2F 0)) (PrimFloat.sub 2.5 (Z2F 0)) = 22%float /\
   block_nn F64 (shift2 D 1 1) 4 4 (PrimFloat.sub 2.5 (Z2F 1)) (PrimFloat.sub 2.5 (Z2F 1)) = 33%float.
 Proof. split; vm_compute; reflexivity. Qed.
+
+(* ---------------- the legacy stacking path (parallel_gradient_search + _concatenate_chunks; its resampler class is gone from the
+   package, the functions remain): one Cython search per co-located source chunk, reduced with nanmax.  The stack is valued
+   exactly where SOME chunk's hull of centres contains the point, with the full-source bilinear value ... *)
+Theorem C09_legacy_stack_spec : forall x0 y0 a b c e, c * b - e * a <> 0 ->
+  forall n_l n_p, (1 <= n_l <= 2 ^ 31)%Z -> (1 <= n_p <= 2 ^ 31)%Z ->
+  forall (D : Z -> Z -> R) (dst : Z -> Z -> R * R) rs cs crops, Forall (fun cr => crop_ok n_l n_p (fst cr) (snd cr)) crops ->
+    legacy_stack RO (affF x0 y0 a b c e) D dst rs cs crops
+    = tab (fun i j =>
+             let L := exactL x0 y0 a b c e (fst (dst i j)) (snd (dst i j)) in
+             let P := exactP x0 y0 a b c e (fst (dst i j)) (snd (dst i j)) in
+             if existsb (fun cr => in_crop (fst cr) (snd cr) L P) crops then Some (bilin4 D (Zfloor L) (Zfloor P) L P) else None)
+          (sstart rs) (slen rs) (sstart cs) (slen cs).
+Proof. intros x0 y0 a b c e Hdet n_l n_p Hl Hp D dst rs cs crops Hok. exact (legacy_stack_spec x0 y0 a b c e Hdet n_l n_p Hl Hp D dst rs cs crops Hok). Qed.
+Print Assumptions C09_legacy_stack_spec.
+(* ... hence the pointwise specification GIVEN H_cover (the chunks' hulls together cover every inside position of the block) *)
+Theorem C09_legacy_stack_if : forall x0 y0 a b c e, c * b - e * a <> 0 ->
+  forall n_l n_p, (1 <= n_l <= 2 ^ 31)%Z -> (1 <= n_p <= 2 ^ 31)%Z ->
+  forall (D : Z -> Z -> R) (dst : Z -> Z -> R * R) rs cs crops, Forall (fun cr => crop_ok n_l n_p (fst cr) (snd cr)) crops ->
+    H_cover x0 y0 a b c e n_l n_p dst rs cs crops ->
+    legacy_stack RO (affF x0 y0 a b c e) D dst rs cs crops
+    = tab (fun i j =>
+             let L := exactL x0 y0 a b c e (fst (dst i j)) (snd (dst i j)) in
+             let P := exactP x0 y0 a b c e (fst (dst i j)) (snd (dst i j)) in
+             if inside (n_l - 1) (n_p - 1) L P then Some (bilin4 D (Zfloor L) (Zfloor P) L P) else None)
+          (sstart rs) (slen rs) (sstart cs) (slen cs).
+Proof. intros x0 y0 a b c e Hdet n_l n_p Hl Hp D dst rs cs crops Hok Hc. exact (legacy_stack_if x0 y0 a b c e Hdet n_l n_p Hl Hp D dst rs cs crops Hok Hc). Qed.
+Print Assumptions C09_legacy_stack_if.
+(* H_cover fails for a plain partition of the source into chunks (binary64 instance, identity coordinates, 4x2 source cut into rows
+   0..1 and 2..3): the target pixel at source row 1.5 lies between the two hulls and is lost, while one chunk values it *)
+Definition ex_stack (crops : list (pslice * pslice)) : list (list bool) :=
+  ex_valued (legacy_stack F64 ex_F (fun l p => Z2F (10 * l + p)) (fun i j => (0.5%float, PrimFloat.add (Z2F i) 0.5%float))
+                          (mk_slice 0 3) (mk_slice 0 1) crops).
+Theorem C09_legacy_partition_loses_seam_refuted :
+  ex_stack [(mk_slice 0 4, mk_slice 0 2)] = [[true]; [true]; [true]] /\
+  ex_stack [(mk_slice 0 2, mk_slice 0 2); (mk_slice 2 4, mk_slice 0 2)] = [[true]; [false]; [true]] /\
+  ex_stack [(mk_slice 0 3, mk_slice 0 2); (mk_slice 2 4, mk_slice 0 2)] = [[true]; [true]; [true]].
+Proof. repeat split; vm_compute; reflexivity. Qed.
+Print Assumptions C09_legacy_partition_loses_seam_refuted.
+
